@@ -62,6 +62,11 @@ CLAIMED = {
    note="Trusted: Lean kernel; Spec/PortMemory.lean; controller-side stub written from crossbar.py; master obeys the port rules of the property. Equal-width path (plain connect) not modelled.",
    technique="Lean 4 proof (FSM/trace invariants by induction over schedules, refuting witnesses by kernel evaluation) + cycle-exact co-simulation + Lean port-memory specification evaluated on implementation runs",
    design="§6 C07"),
+ "C11": dict(
+   text="Cycle-accurate Lean model of LiteDRAMAvalonMM2Native (FSM, command and write-data FIFOs), co-simulated against the real module on ports of the Avalon width; for every width ratio (equal, down- and up-conversion through the real LiteDRAMNativePortConverter) the port-memory specification is evaluated on the Avalon side of the real module under legal master traffic (singles, read/write bursts of 1..max beats, byte enables, idle gaps inside write bursts, don't-care address after the first beat) and the native-side memory compared; theorems for every master behaviour and port timing: single accesses, write bursts (beats numbered consecutively, beat k queued for base+k with the data presented when accepted, idle cycles neutral, burst left only after all n beats), read bursts (n commands at consecutive addresses with last on the final one, every returned word one readdatavalid beat, exit after the n-th). Three genuine defects found and fixed.",
+   note="Trusted: Lean kernel; Spec/PortMemory.lean; native-side stub written from crossbar.py; Avalon master obeys the hold rules. For unequal widths the composition with the converter is judged by the specification (the converter itself is covered cycle-exactly by C07).",
+   technique="Lean 4 proof (FSM invariants by induction over schedules) + cycle-exact co-simulation + Lean port-memory specification evaluated on implementation runs",
+   design="§6 C11"),
  "C13": dict(
    text="Cycle-accurate Lean model of LiteDRAMFIFO (pre/post FIFOs, LiteX width converters, _LiteDRAMFIFOCtrl, writer/reader on the DMA engine models, BYPASS/DRAM/PUMP/DRAIN FSM with Migen's last-assignment-wins multiplexing), co-simulated against the real FIFO for ratios 1..8, with/without bypass, depths 2..16 (many pointer wrap-arounds) under seven rate patterns and random port timing with stalls; the FIFO specification (Spec/FifoSpec: source stream = sink stream, read-back in write order, no write to an unread DRAM word, at most depth words held) is evaluated on the implementation; theorems for every schedule and every shape: level <= depth, pointers level apart, the write slot is never an unread slot, k-th read fetches the k-th written slot across wrap-around; the bypass FIFO's invented word is proved on the model by a witness replayed on the real FIFO (known finding); one genuine defect fixed.",
    note="Trusted: Lean kernel; Spec/FifoSpec.lean; DRAM-side stub written from crossbar.py (commands of both ports ordered by acceptance).",
